@@ -2,7 +2,8 @@
 // (mtest/src/GenericSolver.cxx, with the real StudyCurrentState::update/revert) driven by a scripted Study (step oracle).
 //   LPI <n> t1 v1 ... tn vn <m> q1 ... qm                       -> V v1 ... vm   (hex floats)  | X message
 //   EXEC <dyn> <msub> <min_dt> <max_dt> <min_sf> <max_sf> <ti> <te> <n> ok1 r1 ... okn rn
-//        -> R <done|raise> <period> <subSteps> A <nattempts> (t dt ok)* O <nout> t*
+//        -> R <done|raise-*> <period> <subSteps> A <nattempts> (t dt ok period)* O <nout> t*
+//   CONV <eeps> <seps> <n> u1.. s1.. <ng> (c v)* <nf> (c v)*   -> C <0|1>  (real ImposedGradient/ImposedThermodynamicForce::checkConvergence)
 #include <cstdio>
 #include <cstdlib>
 #include <string>
@@ -18,6 +19,8 @@
 #include "MTest/SolverWorkSpace.hxx"
 #include "MTest/SolverOptions.hxx"
 #include "MTest/GenericSolver.hxx"
+#include "MTest/ImposedGradient.hxx"
+#include "MTest/ImposedThermodynamicForce.hxx"
 
 using mtest::real;
 
@@ -29,7 +32,7 @@ static double rd(std::istream& is) {
 
 struct ScriptedStudy final : mtest::Study {
   std::vector<std::pair<bool, real>> script;
-  mutable std::vector<std::tuple<real, real, bool>> attempts;
+  mutable std::vector<std::tuple<real, real, bool, unsigned int>> attempts;
   mutable std::vector<real> outputs;
   size_type getNumberOfUnknowns() const override { return 0; }
   void initializeCurrentState(mtest::StudyCurrentState&) const override {}
@@ -42,12 +45,12 @@ struct ScriptedStudy final : mtest::Study {
                                                                const mtest::StiffnessMatrixType) const override {
     return {true, 1};
   }
-  std::pair<bool, real> computeStiffnessMatrixAndResidual(mtest::StudyCurrentState&, tfel::math::matrix<real>&,
+  std::pair<bool, real> computeStiffnessMatrixAndResidual(mtest::StudyCurrentState& scs, tfel::math::matrix<real>&,
                                                            tfel::math::vector<real>&, const real t, const real dt,
                                                            const mtest::StiffnessMatrixType) const override {
     const auto k = this->attempts.size();
     const auto r = k < this->script.size() ? this->script[k] : std::pair<bool, real>{true, 1};
-    this->attempts.push_back({t, dt, r.first});
+    this->attempts.push_back({t, dt, r.first, scs.period});
     return r;
   }
   real getErrorNorm(const tfel::math::vector<real>&) const override { return 0; }
@@ -119,15 +122,45 @@ int main() {
         try {
           mtest::GenericSolver().execute(scs, wk, s, o, ti, te);
         } catch (std::exception& e) {
-          status = "raise";
+          const std::string m = e.what();
+          status = m.find("maximum number of sub stepping") != std::string::npos ? "raise-maxsub"
+                   : m.find("negative time step") != std::string::npos        ? "raise-negative"
+                   : m.find("below its minimal value") != std::string::npos   ? "raise-belowmin"
+                                                                                : "raise-other";
         }
         std::printf("R %s %u %u A %zu", status.c_str(), scs.period, scs.subSteps, s.attempts.size());
         for (const auto& a : s.attempts) {
-          std::printf(" %a %a %d", std::get<0>(a), std::get<1>(a), std::get<2>(a) ? 1 : 0);
+          std::printf(" %a %a %d %u", std::get<0>(a), std::get<1>(a), std::get<2>(a) ? 1 : 0, std::get<3>(a));
         }
         std::printf(" O %zu", s.outputs.size());
         for (const auto& t : s.outputs) std::printf(" %a", t);
         std::printf("\n");
+      } else if (cmd == "CONV") {
+        // CONV <eeps> <seps> <n> u1.. s1.. <ng> (c v)* <nf> (c v)*
+        const real eeps = rd(is), seps = rd(is);
+        std::size_t n, ng, nf;
+        is >> n;
+        tfel::math::vector<real> u(n), sg(n);
+        for (auto& x : u) x = rd(is);
+        for (auto& x : sg) x = rd(is);
+        bool ok = true;
+        is >> ng;
+        for (std::size_t i = 0; i != ng; ++i) {
+          unsigned short c;
+          is >> c;
+          const real v = rd(is);
+          mtest::ImposedGradient g(c, mtest::make_evolution(v));
+          ok = g.checkConvergence(u, sg, eeps, seps, 0., 1.) && ok;
+        }
+        is >> nf;
+        for (std::size_t i = 0; i != nf; ++i) {
+          unsigned short c;
+          is >> c;
+          const real v = rd(is);
+          mtest::ImposedThermodynamicForce f(c, mtest::make_evolution(v));
+          ok = f.checkConvergence(u, sg, eeps, seps, 0., 1.) && ok;
+        }
+        std::printf("C %d\n", ok ? 1 : 0);
       } else {
         std::printf("E unknown\n");
       }
